@@ -49,6 +49,10 @@ type Req struct {
 type Case struct {
 	ID   int   `json:"id"`
 	Reqs []Req `json:"reqs"`
+	// Quiet: run at the quietest log level (syslog.LvFatal).  The refusal of a duplicate is a Panicf of the library's
+	// logger, which only panics while the level lets Panic messages through: at LvFatal the duplicate is dropped
+	// silently ("dropped") and registration goes on.
+	Quiet bool `json:"quiet"`
 }
 
 type Out struct {
@@ -94,9 +98,16 @@ func mk(r Req, insts map[int]any) any {
 func main() {
 	var in struct {
 		Cases []Case `json:"cases"`
+		// Quiet: the whole batch runs at syslog.LvFatal.  The level is fixed per process: the registry's logger is cached
+		// by prefix with the level it had when it was first asked for.
+		Quiet bool `json:"quiet"`
 	}
 	hx.ReadInput(&in)
-	syslog.Level(syslog.LvPanic)
+	if in.Quiet {
+		syslog.Level(syslog.LvFatal)
+	} else {
+		syslog.Level(syslog.LvPanic)
+	}
 	var outs []Out
 	for _, c := range in.Cases {
 		o := Out{ID: c.ID}
@@ -119,7 +130,11 @@ func main() {
 			case p != "":
 				o.Outs = append(o.Outs, "panic")
 			case reg.GetSingletonCount() == before:
-				o.Outs = append(o.Outs, "same")
+				if cur, _ := reg.GetSingleton(framework_helper.GetComponentName(obj)); cur != obj {
+					o.Outs = append(o.Outs, "dropped") // another instance keeps the name; no panic (quiet level)
+				} else {
+					o.Outs = append(o.Outs, "same")
+				}
 			default:
 				o.Outs = append(o.Outs, "ok")
 			}
